@@ -5,12 +5,15 @@ d=$1; prop=$2; tier=${3:-quick}
 cd /repo || exit 2
 git status --short | grep -q . && { echo "repo not clean"; exit 2; }
 if ! git apply --check $d/patch.diff 2>/dev/null; then
-  if git apply --3way $d/patch.diff 2>/dev/null; then echo "applied with 3way"; git reset -q; else echo "PATCH-DOES-NOT-APPLY $d"; git checkout -q -- .; exit 3; fi
+  if git apply --3way $d/patch.diff 2>/dev/null; then echo "applied with 3way"; git reset -q; else echo "PATCH-DOES-NOT-APPLY $d"; git reset -q --hard HEAD; exit 3; fi
 else
   git apply $d/patch.diff
 fi
 cd /verif
+# the evidence file of the property must keep describing the unchanged tree
+bak=$(mktemp /dev/shm/evidence-bak.XXXXXX); cp evidence/$prop.json $bak 2>/dev/null
 out=$(VERIF_SEED=${VERIF_SEED:-1} bin/check $prop $tier 2>&1); rc=$?
-git -C /repo checkout -q -- . ; git -C /repo clean -fdq -- . 2>/dev/null
+[ -s $bak ] && cp $bak evidence/$prop.json; rm -f $bak
+git -C /repo reset -q --hard HEAD; git -C /repo clean -fdq -- . 2>/dev/null
 echo "$out" | grep -E "VIOLATION|oracle=|DONE|KNOWN" | head -6
 if [ $rc -eq 1 ]; then echo "RESULT $d $prop $tier DETECTED"; elif [ $rc -eq 0 ]; then echo "RESULT $d $prop $tier MISSED"; else echo "RESULT $d $prop $tier INFRA rc=$rc"; echo "$out" | tail -5; fi
